@@ -80,30 +80,83 @@ Proof.
   destruct E as [ts [E1 E2]]. now rewrite E1, E2.
 Qed.
 
-(* ---------- a row of index_search as the outer statement sees it ---------- *)
-Definition qrow (m : mspan) : row := qualify "index_search" (mspan_row m).
+Local Infix "+++" := String.append (right associativity, at level 60).
+(* ---------- qualified column names: a row of a CTE answers to `col` and to `alias.col` ---------- *)
+Fixpoint has_dot (s : string) : bool := match s with EmptyString => false | String ch r => Ascii.eqb ch "." || has_dot r end.
+Lemma has_dot_app a b : has_dot (a +++ b) = has_dot a || has_dot b.
+Proof. induction a as [|ch a IH]; [reflexivity|]. cbn [append has_dot]. rewrite IH. now rewrite orb_assoc. Qed.
+Lemma has_dot_suffix a s : has_dot s = true -> has_dot (a +++ s) = true.
+Proof. intros H. rewrite has_dot_app, H. apply orb_true_r. Qed.
+Lemma eqb_app_l a x y : String.eqb (a +++ x) (a +++ y) = String.eqb x y.
+Proof. induction a as [|ch a IH]; [reflexivity|]. cbn [append String.eqb]. now rewrite Ascii.eqb_refl. Qed.
+Lemma eqb_dot x y : has_dot x = true -> has_dot y = false -> String.eqb x y = false.
+Proof. intros Hx Hy. destruct (String.eqb x y) eqn:E; [|reflexivity]. apply String.eqb_eq in E. subst y. congruence. Qed.
+Lemma eqb_dot' x y : has_dot x = false -> has_dot y = true -> String.eqb x y = false.
+Proof. intros Hx Hy. rewrite String.eqb_sym. now apply eqb_dot. Qed.
+Definition plain (r : row) : bool := forallb (fun kv => negb (has_dot (fst kv))) r.
+Lemma lookup_app k (r r' : row) : lookup k (r ++ r') = match lookup k r with Some v => Some v | None => lookup k r' end.
+Proof. induction r as [|[k' v] r IH]; [reflexivity|]. cbn [app lookup]. destruct (String.eqb k k'); [reflexivity|exact IH]. Qed.
+Lemma lookup_dotted_plain k r : has_dot k = true -> plain r = true -> lookup k r = None.
+Proof.
+  intros Hk. induction r as [|[k' v] r IH]; [reflexivity|]. cbn [plain forallb fst]. intros H. apply andb_true_iff in H. destruct H as [H1 H2].
+  cbn [lookup]. rewrite (eqb_dot k k' Hk) by (now apply negb_true_iff in H1). now apply IH.
+Qed.
+Lemma lookup_qualified a k r : plain r = true -> lookup (a +++ "." +++ k) (qualify a r) = lookup k r.
+Proof.
+  intros Hp. unfold qualify. rewrite lookup_app.
+  rewrite (lookup_dotted_plain (a +++ "." +++ k) r) by (try assumption; apply has_dot_suffix; reflexivity).
+  clear Hp. induction r as [|[k' v] r IH]; [reflexivity|]. cbn [map lookup fst snd].
+  rewrite eqb_app_l. cbn [append String.eqb]. rewrite Ascii.eqb_refl. destruct (String.eqb k k'); [reflexivity|exact IH].
+Qed.
+Lemma lookup_plain a k r : has_dot k = false -> lookup k (qualify a r) = lookup k r.
+Proof.
+  intros Hk. unfold qualify. rewrite lookup_app. destruct (lookup k r) as [v|]; [reflexivity|].
+  induction r as [|[k' v] r IH]; [reflexivity|]. cbn [map lookup fst snd].
+  rewrite (eqb_dot' k _ Hk) by (apply has_dot_suffix; reflexivity). exact IH.
+Qed.
+Lemma lookup_alias_dotted x (al : list (string * expr)) :
+  has_dot x = true -> forallb (fun kv => negb (has_dot (fst kv))) al = true -> lookup_alias x al = None.
+Proof.
+  intros Hx. induction al as [|[k d] al IH]; [reflexivity|]. cbn [forallb fst]. intros H. apply andb_true_iff in H. destruct H as [H1 H2].
+  cbn [lookup_alias]. rewrite (eqb_dot x k Hx) by (now apply negb_true_iff in H1). now apply IH.
+Qed.
+
+(* ---------- a row of <p>index_search as the outer statement sees it (p = the prefix of the operand; "" for a one-selector search) ---------- *)
+Definition isx (p : string) : string := p +++ "index_search".
+Definition qrow (p : string) (m : mspan) : row := qualify (isx p) (mspan_row m).
 Definition same_tr (a b : mspan) : bool := String.eqb (m_trace a) (m_trace b).
 
-Lemma q_trace m : lookup "trace_id" (qrow m) = Some (VStr (m_trace m)). Proof. reflexivity. Qed.
-Lemma q_span m : lookup "span_id" (qrow m) = Some (VStr (m_span m)). Proof. reflexivity. Qed.
-Lemma q_ts m : lookup "index_search.timestamp_ns" (qrow m) = Some (VInt (m_ts m)).
-Proof. unfold qrow, mspan_row. destruct (m_agg m); reflexivity. Qed.
-Lemma q_qspan m : lookup "index_search.span_id" (qrow m) = Some (VStr (m_span m)).
-Proof. unfold qrow, mspan_row. destruct (m_agg m); reflexivity. Qed.
-Lemma q_agg m : lookup "agg_val" (qrow m) = m_agg m.
-Proof. unfold qrow, mspan_row. destruct (m_agg m); reflexivity. Qed.
+Lemma mspan_row_plain m : plain (mspan_row m) = true.
+Proof. unfold mspan_row. destruct (m_agg m); reflexivity. Qed.
+Lemma q_trace p m : lookup "trace_id" (qrow p m) = Some (VStr (m_trace m)). Proof. reflexivity. Qed.
+Lemma q_span p m : lookup "span_id" (qrow p m) = Some (VStr (m_span m)). Proof. reflexivity. Qed.
+Lemma q_ts_plain p m : lookup "timestamp_ns" (qrow p m) = Some (VInt (m_ts m)). Proof. reflexivity. Qed.
+Lemma q_ts p m : lookup (isx p +++ ".timestamp_ns") (qrow p m) = Some (VInt (m_ts m)).
+Proof.
+  unfold qrow. change (isx p +++ ".timestamp_ns") with (isx p +++ "." +++ "timestamp_ns").
+  rewrite lookup_qualified by apply mspan_row_plain. reflexivity.
+Qed.
+Lemma q_qspan p m : lookup (isx p +++ ".span_id") (qrow p m) = Some (VStr (m_span m)).
+Proof.
+  unfold qrow. change (isx p +++ ".span_id") with (isx p +++ "." +++ "span_id").
+  rewrite lookup_qualified by apply mspan_row_plain. reflexivity.
+Qed.
+Lemma q_agg p m : lookup "agg_val" (qrow p m) = m_agg m.
+Proof. unfold qrow. rewrite lookup_plain by reflexivity. unfold mspan_row. destruct (m_agg m); reflexivity. Qed.
 
 Lemma same_tr_refl a : same_tr a a = true. Proof. apply String.eqb_refl. Qed.
 Lemma same_tr_sym a b : same_tr a b = same_tr b a. Proof. apply String.eqb_sym. Qed.
 Lemma same_tr_trans a b x : same_tr a b = true -> same_tr b x = true -> same_tr a x = true.
 Proof. unfold same_tr. intros H1 H2. apply String.eqb_eq in H1, H2. rewrite H1, H2. apply String.eqb_refl. Qed.
 
-(* what a group of index_search rows (one trace) becomes *)
+(* what a group of index_search rows (one trace) becomes; wts: the statement is an operand of && / ||, ComplexAnd/OrPlanner
+   added the column max(timestamp_ns) as max_timestamp_ns *)
 Definition g_trace (g : list mspan) : string := match g with m0 :: _ => m_trace m0 | [] => "" end.
 Definition g_spans (g : list mspan) : list string := firstn 100 (map m_span g).
 Definition g_key (g : list mspan) : Z := Zmax_l (map m_ts g).
-Definition g_row (g : list mspan) : row :=
-  [("trace_id", VStr (g_trace g)); ("span_id", VArr (map VStr (g_spans g)))].
+Definition g_row (wts : bool) (g : list mspan) : row :=
+  [("trace_id", VStr (g_trace g)); ("span_id", VArr (map VStr (g_spans g)))]
+  ++ (if wts then [("max_timestamp_ns", VInt (g_key g))] else []).
 
 Section GROUPED.
   Variable re_match : string -> string -> bool.
@@ -111,14 +164,28 @@ Section GROUPED.
   Variable hash64 : string -> Z.
   Variable tables : list (string * table).
   Notation EVW := (ev re_match parse_float hash64).
+  Variable p : string.
+  Variable wts : bool.
 
   Definition cols2 : list expr :=
-    [Col (Id "trace_id") "trace_id"; Col (PFn FGroupArray [NumLit "100"] [Id "span_id"]) "span_id"].
-  Definition ob2 : list expr := [Ord (Fn FMax [Id "index_search.timestamp_ns"]) true].
+    [Col (Id "trace_id") "trace_id"; Col (PFn FGroupArray [NumLit "100"] [Id "span_id"]) "span_id"]
+    ++ (if wts then [Col (Fn FMax [Id "timestamp_ns"]) "max_timestamp_ns"] else []).
+  Definition names2 : list string := ["trace_id"; "span_id"] ++ (if wts then ["max_timestamp_ns"] else []).
+  Definition ob2 : list expr := [Ord (Fn FMax [Id (isx p +++ ".timestamp_ns")]) true].
   Definition grouped_stmt (withs : list (string * select)) (hv lim : option expr) : select :=
-    Sel withs false cols2 (Some (WRef "index_search")) [] None None hv [Id "trace_id"] ob2 lim.
+    Sel withs false cols2 (Some (WRef (isx p))) [] None None hv [Id "trace_id"] ob2 lim.
 
   Definition al2 : list (string * expr) := col_aliases cols2.
+  Lemma al2_plain : forallb (fun kv : string * expr => negb (has_dot (fst kv))) al2 = true.
+  Proof. unfold al2, cols2. destruct wts; reflexivity. Qed.
+  Lemma al2_dotted x : has_dot x = true -> lookup_alias x al2 = None.
+  Proof. intros H. apply lookup_alias_dotted; [assumption|apply al2_plain]. Qed.
+  Lemma al2_agg_val : lookup_alias "agg_val" al2 = None.
+  Proof. unfold al2, cols2. destruct wts; reflexivity. Qed.
+  Lemma al2_ts : lookup_alias "timestamp_ns" al2 = None.
+  Proof. unfold al2, cols2. destruct wts; reflexivity. Qed.
+  Lemma isx_dotted s : has_dot s = true -> has_dot (isx p +++ s) = true.
+  Proof. apply has_dot_suffix. Qed.
 
   Section EQS.
     Variable cte : env.
@@ -148,58 +215,70 @@ Section GROUPED.
   Variable rec : env -> bool -> select -> option table.
   Variable cte : env.
   Variable T : list mspan.
-  Hypothesis Hcte : env_get "index_search" cte = Some (map mspan_row T).
+  Hypothesis Hcte : env_get (isx p) cte = Some (map mspan_row T).
 
   Variable hv : option expr.
   Variable P : list mspan -> bool.
   Hypothesis Hal : match hv with Some h => having_aliases ev_fuel h | None => [] end = [].
   Hypothesis Hhv : forall h m0 rest, hv = Some h -> In (m0 :: rest) (group_rows same_tr T) ->
-    exists v t, EVW cte al2 ["trace_id"] ev_fuel true "" (map qrow (m0 :: rest)) (qrow m0) h = Some v
+    exists v t, EVW cte al2 ["trace_id"] ev_fuel true "" (map (qrow p) (m0 :: rest)) (qrow p m0) h = Some v
                 /\ truth v = Some t /\ is_true3 t = P (m0 :: rest).
   Hypothesis Hnone : hv = None -> forall g, P g = true.
 
   Lemma stmt_aliases2 : stmt_aliases cols2 hv = al2.
   Proof. unfold stmt_aliases. fold al2. rewrite Hal. apply app_nil_r. Qed.
 
-  Lemma eq_keys_tr a b : eq_keys ["trace_id"] (qrow a) (qrow b) = same_tr a b.
+  Lemma eq_keys_tr a b : eq_keys ["trace_id"] (qrow p a) (qrow p b) = same_tr a b.
   Proof. unfold eq_keys, same_tr. cbn [forallb]. rewrite !q_trace. cbn [veqb]. now rewrite andb_true_r. Qed.
 
   Lemma rows_have_trace (l : list mspan) :
-    forallb (fun r => forallb (fun k => match lookup k r with Some _ => true | None => false end) ["trace_id"]) (map qrow l) = true.
+    forallb (fun r => forallb (fun k => match lookup k r with Some _ => true | None => false end) ["trace_id"]) (map (qrow p) l) = true.
   Proof. apply forallb_forall. intros r Hr. apply in_map_iff in Hr. destruct Hr as [x [<- _]]. cbn [forallb]. now rewrite q_trace. Qed.
 
-  Lemma out_row2 m0 rest :
-    out_row re_match parse_float hash64 cte al2 ["trace_id"] ["trace_id"; "span_id"] cols2 (map qrow (m0 :: rest))
-    = Some (g_row (m0 :: rest)).
+  Lemma key_max f0 self m0 rest x : (forall f m, EVW cte al2 ["trace_id"] (S f) false self [] (qrow p m) x = Some (VInt (m_ts m))) ->
+    EVW cte al2 ["trace_id"] (S (S f0)) true self (map (qrow p) (m0 :: rest)) (qrow p m0) (Fn FMax [x]) = Some (VInt (g_key (m0 :: rest))).
   Proof.
-    set (G := map qrow (m0 :: rest)).
+    intros Hx. rewrite ev_FMax. rewrite map_map.
+    rewrite (all_some_map_ext _ (fun m => VInt (m_ts m))).
+    - rewrite (non_null_map_nn (fun m => VInt (m_ts m))) by reflexivity.
+      rewrite <- (map_map m_ts VInt). apply vmax_l_ints. discriminate.
+    - intros m _. apply Hx.
+  Qed.
+
+  Lemma out_row2 m0 rest :
+    out_row re_match parse_float hash64 cte al2 ["trace_id"] names2 cols2 (map (qrow p) (m0 :: rest))
+    = Some (g_row wts (m0 :: rest)).
+  Proof.
+    set (G := map (qrow p) (m0 :: rest)).
     assert (H1 : evg re_match parse_float hash64 cte al2 ["trace_id"] "trace_id" G (Col (Id "trace_id") "trace_id") = Some (VStr (m_trace m0))).
-    { unfold evg. change G with (qrow m0 :: map qrow rest) at 1. cbv beta iota. unfold ev_fuel.
+    { unfold evg. change G with (qrow p m0 :: map (qrow p) rest) at 1. cbv beta iota. unfold ev_fuel.
       change 40 with (S (S 38)). rewrite ev_Col, ev_Id_agg, String.eqb_refl.
       change (existsb (String.eqb "trace_id") ["trace_id"]) with true. cbv iota. apply q_trace. }
     assert (H2 : evg re_match parse_float hash64 cte al2 ["trace_id"] "span_id" G (Col (PFn FGroupArray [NumLit "100"] [Id "span_id"]) "span_id")
                  = Some (VArr (map VStr (g_spans (m0 :: rest))))).
-    { unfold evg. change G with (qrow m0 :: map qrow rest) at 1. cbv beta iota. unfold ev_fuel.
+    { unfold evg. change G with (qrow p m0 :: map (qrow p) rest) at 1. cbv beta iota. unfold ev_fuel.
       change 40 with (S (S (S 37))). rewrite ev_Col, ev_GroupArray100. subst G. rewrite map_map.
       rewrite (all_some_map_ext _ (fun m => VStr (m_span m))).
       - rewrite (non_null_map_nn (fun m => VStr (m_span m))) by reflexivity.
         unfold g_spans. now rewrite <- (map_map m_span VStr), firstn_map.
       - intros m _. rewrite ev_Id_row, String.eqb_refl. apply q_span. }
-    unfold out_row, cols2. cbn [combine map fst snd]. rewrite H1, H2. reflexivity.
+    assert (H3 : evg re_match parse_float hash64 cte al2 ["trace_id"] "max_timestamp_ns" G (Col (Fn FMax [Id "timestamp_ns"]) "max_timestamp_ns")
+                 = Some (VInt (g_key (m0 :: rest)))).
+    { unfold evg. change G with (qrow p m0 :: map (qrow p) rest) at 1. cbv beta iota. unfold ev_fuel.
+      change 40 with (S (S 38)). rewrite ev_Col. subst G. apply (key_max 37).
+      intros f m. rewrite ev_Id_row. change (String.eqb "timestamp_ns" "max_timestamp_ns") with false. cbv iota.
+      rewrite al2_ts. apply q_ts_plain. }
+    unfold out_row, cols2, names2, g_row. destruct wts; cbn [combine map fst snd app]; rewrite H1, H2, ?H3; reflexivity.
   Qed.
 
   Lemma key2 m0 rest :
-    evg re_match parse_float hash64 cte al2 ["trace_id"] "" (map qrow (m0 :: rest)) (Ord (Fn FMax [Id "index_search.timestamp_ns"]) true)
+    evg re_match parse_float hash64 cte al2 ["trace_id"] "" (map (qrow p) (m0 :: rest)) (Ord (Fn FMax [Id (isx p +++ ".timestamp_ns")]) true)
     = Some (VInt (g_key (m0 :: rest))).
   Proof.
-    set (G := map qrow (m0 :: rest)).
-    unfold evg. change G with (qrow m0 :: map qrow rest) at 1. cbv beta iota. unfold ev_fuel.
-    change 40 with (S (S (S 37))). rewrite ev_Ord, ev_FMax. subst G. rewrite map_map.
-    rewrite (all_some_map_ext _ (fun m => VInt (m_ts m))).
-    - rewrite (non_null_map_nn (fun m => VInt (m_ts m))) by reflexivity.
-      rewrite <- (map_map m_ts VInt). apply vmax_l_ints. discriminate.
-    - intros m _. rewrite ev_Id_row. change (String.eqb "index_search.timestamp_ns" "") with false. cbv iota.
-      change (lookup_alias "index_search.timestamp_ns" al2) with (@None expr). apply q_ts.
+    unfold evg. cbn [map]. unfold ev_fuel.
+    change 40 with (S (S 38)). rewrite ev_Ord. apply (key_max 37 "" m0 rest).
+    intros f m. rewrite ev_Id_row. rewrite (eqb_dot _ "") by (try reflexivity; apply isx_dotted; reflexivity). cbv iota.
+    rewrite al2_dotted by (apply isx_dotted; reflexivity). apply q_ts.
   Qed.
 
   Definition tgroups : list (list mspan) := filter P (group_rows same_tr T).
@@ -238,22 +317,24 @@ Section GROUPED.
     exact (ins_sorted_map f dirs x a).
   Qed.
 
+  Lemma names_cols2 : all_some (map col_name cols2) = Some names2.
+  Proof. unfold cols2, names2. destruct wts; reflexivity. Qed.
+
   Theorem grouped_bridge withs lim :
     eval_body re_match parse_float hash64 tables rec cte false (grouped_stmt withs hv lim)
-    = option_map (map g_row) (grouped_answer lim).
+    = option_map (map (g_row wts)) (grouped_answer lim).
   Proof.
     unfold eval_body, grouped_stmt. cbv beta iota. unfold stage_with. cbv beta iota.
-    assert (Hfrom : stage_joins re_match parse_float hash64 cte [] (stage_from tables rec cte (Some (WRef "index_search")))
-                    = Some (map qrow T)).
+    assert (Hfrom : stage_joins re_match parse_float hash64 cte [] (stage_from tables rec cte (Some (WRef (isx p))))
+                    = Some (map (qrow p) T)).
     { unfold stage_joins, stage_from. cbn [fold_left]. rewrite Hcte, map_map. reflexivity. }
-    rewrite Hfrom. unfold stage_where. cbn [map all_some col_name cols2 String.eqb Ascii.eqb Bool.eqb].
-    change (all_some (map col_name cols2)) with (Some ["trace_id"; "span_id"]). cbv beta iota.
+    rewrite Hfrom. unfold stage_where. rewrite names_cols2. cbv beta iota. cbn [map all_some].
     unfold stage_group. rewrite rows_have_trace. cbn [negb].
-    rewrite (group_rows_map qrow same_tr _ eq_keys_tr), stmt_aliases2.
+    rewrite (group_rows_map (qrow p) same_tr _ eq_keys_tr), stmt_aliases2.
     assert (Hkept : match hv with
-                    | None => Some (map (map qrow) (group_rows same_tr T))
-                    | Some h => keep_true (fun g => evg re_match parse_float hash64 cte al2 ["trace_id"] "" g h) (map (map qrow) (group_rows same_tr T))
-                    end = Some (map (map qrow) tgroups)).
+                    | None => Some (map (map (qrow p)) (group_rows same_tr T))
+                    | Some h => keep_true (fun g => evg re_match parse_float hash64 cte al2 ["trace_id"] "" g h) (map (map (qrow p)) (group_rows same_tr T))
+                    end = Some (map (map (qrow p)) tgroups)).
     { unfold tgroups. destruct hv as [h|] eqn:Eh.
       - apply keep_true_map3. intros g Hg. destruct g as [|m0 rest]; [exfalso; now apply (tgroups_nonempty [] Hg)|].
         unfold evg. cbn [map]. now apply Hhv.
@@ -263,18 +344,18 @@ Section GROUPED.
     assert (Hne : forall g, In g tgroups -> g <> []).
     { intros g Hg. apply filter_In in Hg. destruct Hg as [Hg _]. exact (tgroups_nonempty g Hg). }
     assert (Hout : forall g, In g tgroups ->
-              out_row re_match parse_float hash64 cte al2 ["trace_id"] ["trace_id"; "span_id"] cols2 (map qrow g) = Some (g_row g)).
+              out_row re_match parse_float hash64 cte al2 ["trace_id"] names2 cols2 (map (qrow p) g) = Some (g_row wts g)).
     { intros g Hg. destruct g as [|m0 rest]; [exfalso; now apply (Hne [] Hg)|]. apply out_row2. }
     unfold grouped_answer. destruct lim as [l|].
     - destruct l; try reflexivity. rewrite map_map.
-      rewrite (all_some_map_ext _ (fun g => ([VInt (g_key g)], g_row g))).
+      rewrite (all_some_map_ext _ (fun g => ([VInt (g_key g)], g_row wts g))).
       + change (map (fun o => match o with Ord _ d => d | _ => false end) ob2) with [true].
-        rewrite <- (map_map (fun g => ([VInt (g_key g)], g)) (fun p => (fst p, g_row (snd p)))).
-        rewrite (sort_by_map g_row).
+        rewrite <- (map_map (fun g => ([VInt (g_key g)], g)) (fun p => (fst p, g_row wts (snd p)))).
+        rewrite (sort_by_map (g_row wts)).
         destruct (sort_by [true] (map (fun g => ([VInt (g_key g)], g)) tgroups)) as [sorted|]; [|reflexivity].
-        cbn [option_map]. rewrite map_map. cbn [snd]. rewrite <- (map_map snd g_row), firstn_map. reflexivity.
+        cbn [option_map]. rewrite map_map. cbn [snd]. rewrite <- (map_map snd (g_row wts)), firstn_map. reflexivity.
       + intros g Hg. destruct g as [|m0 rest]; [exfalso; now apply (Hne [] Hg)|].
-        set (G := map qrow (m0 :: rest)). unfold ob2. cbn [map all_some]. subst G. rewrite key2. cbn [all_some]. now rewrite out_row2.
+        set (G := map (qrow p) (m0 :: rest)). unfold ob2. cbn [map all_some]. subst G. rewrite key2. cbn [all_some]. now rewrite out_row2.
     - cbn [option_map]. rewrite map_map. apply all_some_map_ext. exact Hout.
   Qed.
 End GROUPED.
